@@ -541,6 +541,11 @@ func main() {
 		"struct, interface value or non-empty collection; distinct by sha256 of schema and value"
 	x := &runner{r: r, derive: true}
 	count = r.Count
+	if goOnlyReplay(r) { // C01B_GOONLY=<family>:<sub-seed>: one case of the Go-only stream (goonly.go)
+		r.Finish()
+
+		return
+	}
 	if lines := r.ReplayLines(); lines != nil {
 		x.derive = false
 		x.runCase(0, lines)
@@ -557,5 +562,8 @@ func main() {
 		rng, sub := r.Rng.Fork()
 		x.runCase(sub, genCase(rng))
 	}
+	// Go-only stream (after everything else, from its own fork: the draws above are what they were): self-serialising
+	// types, validators, must-occur rules, inlined pointers / interfaces
+	goOnly(r, 400*r.Scale)
 	r.Finish()
 }
